@@ -1,6 +1,6 @@
 (** C15 — options resolve per field: run time over benchmark over innermost group.
     Statements only; each closed by [exact] of a lemma in Proofs/Options.v. *)
-From DivanV Require Import Base.Res Model.Options Proofs.Options.
+From DivanV Require Import Base.Res Model.Options Proofs.Options Model.RunnerConfig Proofs.RunnerConfig.
 Local Open Scope N_scope.
 
 (** For every nesting depth ([groups] = the options of the nodes on the path
@@ -173,3 +173,59 @@ Theorem C15_parse_seconds_model_sb : forall (text : list N),
   (exists ip fp, decimal_parts text = Some (ip, fp) /\ 9 < N.of_nat (length fp)).
 Proof. exact parse_seconds_sb_model. Qed.
 Print Assumptions C15_parse_seconds_model_sb.
+
+(** * The runner's scalar settings (action, timer, sort + reverse, color,
+    bytes format, ignored): builder calls, then [config_with_args], then
+    builder calls.  The process is refused exactly when clap refuses the
+    command line / environment; otherwise every field is decided by the
+    highest-precedence source that sets IT — a builder call made after
+    parsing, then the flag, then the DIVAN_* variable (where one exists), then
+    a builder call made before parsing, then the default — and by nothing else
+    (each right-hand side mentions that field's inputs only). *)
+Theorem C15_config_refused : forall (before after : list builder_call) (a : cli),
+  runner_config_resolve before a after = None <-> clap_accepts a = false.
+Proof. exact resolve_rejects. Qed.
+Print Assumptions C15_config_refused.
+
+Theorem C15_config_fields : forall (before after : list builder_call) (a : cli) (r : config),
+  runner_config_resolve before a after = Some r ->
+  cfg_action r = spec_action a
+  /\ cfg_timer r = pick [a_timer a; e_timer a] TOs
+  /\ cfg_sort r = pick [val_sortr a; val_sort a] SKind
+  /\ cfg_reverse r = match val_sortr a, val_sort a with Some _, _ => true | None, _ => false end
+  /\ cfg_color r = pick [last_set call_color after; a_color a; last_set call_color before] CAuto
+  /\ cfg_bytes_binary r =
+     pick [last_set call_bytes after; a_bytes_binary a; e_bytes_binary a; last_set call_bytes before] false
+  /\ cfg_ignored r = pick [last_set call_ignored after; args_ignored a; last_set call_ignored before] RunNo.
+Proof. exact resolve_fields. Qed.
+Print Assumptions C15_config_fields.
+
+(** A builder call changes the field it is about and no other. *)
+Theorem C15_config_call_independent : forall (c : config) (b : builder_call),
+  cfg_action (apply_call c b) = cfg_action c
+  /\ cfg_timer (apply_call c b) = cfg_timer c
+  /\ cfg_sort (apply_call c b) = cfg_sort c
+  /\ cfg_reverse (apply_call c b) = cfg_reverse c
+  /\ (call_color b = None -> cfg_color (apply_call c b) = cfg_color c)
+  /\ (call_bytes b = None -> cfg_bytes_binary (apply_call c b) = cfg_bytes_binary c)
+  /\ (call_ignored b = None -> cfg_ignored (apply_call c b) = cfg_ignored c).
+Proof. exact call_independent. Qed.
+Print Assumptions C15_config_call_independent.
+
+(** [--sort] / [--sortr]: the later flag wins; a value for both (flag or
+    variable, after that) is refused. *)
+Theorem C15_config_sort_flags : forall (a : cli) (s r : sorting),
+  a_sort a = Some s -> a_sortr a = Some r ->
+  cli_sort a = (if a_sortr_last a then None else Some s) /\ cli_sortr a = (if a_sortr_last a then Some r else None).
+Proof. exact sort_flags_last_wins. Qed.
+Print Assumptions C15_config_sort_flags.
+
+Theorem C15_config_sort_conflict : forall (a : cli) (s r : sorting),
+  val_sort a = Some s -> val_sortr a = Some r -> clap_accepts a = false.
+Proof. exact sort_conflict_refused. Qed.
+Print Assumptions C15_config_sort_conflict.
+
+Theorem C15_config_spec : forall (before after : list builder_call) (a : cli),
+  runner_config_resolve before a after = config_spec before a after.
+Proof. exact config_spec_correct. Qed.
+Print Assumptions C15_config_spec.
